@@ -31,6 +31,8 @@ def absv(f):
     """abstract value of a Field: its value text, marked "n" when the Field has no start line; a Field with a line
     must carry the line it was created with (10 x its numeric value in the T2 universe)"""
     v = f.value
+    if not isinstance(v, str):
+        v = f"{v!r}#{type(v).__name__}"          # a non-str value is stored as it is given (type included)
     if f.start_line is None:
         return f"{v}~"
     if isinstance(v, str) and v.isdigit() and f.start_line != 10 * int(v):
@@ -38,9 +40,20 @@ def absv(f):
     return v
 
 
+def concrete(v):
+    """abstract value text -> the Python value it stands for ("7#int" -> 7, "2.5#float" -> 2.5)"""
+    if isinstance(v, str) and v.endswith("#int"):
+        return int(v[:-4])
+    if isinstance(v, str) and v.endswith("#float"):
+        return float(v[:-6])
+    return v
+
+
 def mkfield(model, k, v):
     if isinstance(v, str) and v.endswith("~"):
-        return model.Field(k, v[:-1])
+        return model.Field(k, concrete(v[:-1]))
+    if concrete(v) is not v:
+        return model.Field(k, concrete(v), 0)
     return model.Field(k, v, 10 * int(v) if isinstance(v, str) and v.isdigit() else 0)
 
 
@@ -60,7 +73,7 @@ def apply_op(entry, op, model):
         if o == "setitem":
             if not (isinstance(v, str) and v.endswith("~")):
                 raise core.MachineryError("item assignment takes an abstract value without a line (suffix ~)")
-            entry[k] = v[:-1]
+            entry[k] = concrete(v[:-1])
             return {"t": "none"}
         if o == "pop":
             r = entry.pop(k, _SENT)
@@ -87,7 +100,12 @@ def apply_op(entry, op, model):
             try:
                 val = entry[k]
                 if k not in ("ENTRYTYPE", "ID"):
-                    val = absv(entry.fields_dict[k]) if k in entry.fields_dict else val
+                    f = next((x for x in entry.fields if x.key == k), None)
+                    # the lookup answers with the VALUE of the field stored under exactly that key
+                    if f is not None and type(val) is type(f.value) and val == f.value:
+                        val = absv(f)
+                    else:
+                        val = f"<item lookup returned {val!r}>"
                 return {"t": "val", "v": val}
             except KeyError:
                 return {"t": "KeyError"}
@@ -198,6 +216,13 @@ def perturbations(b, model, rnd):
     o = cp(); o.set_parser_metadata("zz", 1); yield "metadata", o
     if hasattr(b, "key"):
         o = cp(); o.key = b.key + "_"; yield "key", o
+        # a key that differs only in letter case / only under case folding / only by Unicode normalisation is another key
+        if b.key.swapcase() != b.key:
+            o = cp(); o.key = b.key.swapcase(); yield "key-case", o
+        for lab, (k1, k2) in (("key-casefold", (b.key + "ß", b.key + "ss")), ("key-nfc", (b.key + "e\u0301", b.key + "\u00e9"))):
+            o1 = cp(); o1.key = k1
+            o2 = cp(); o2.key = k2
+            yield lab, (o1, o2)
     if c == "Entry":
         o = cp(); o.entry_type = b.entry_type + "x"; yield "entry_type", o
         if b.fields:
@@ -277,8 +302,8 @@ def run(chk: core.Check):
 
     # ---- T3: random histories on parsed entries ----------------------------
     ncases = 60 if chk.tier == "quick" else 600
-    pool = ["a", "A", "b", "B", "c", "title", "Title", "year", "ß", "ss", "SS", "ſ"]
-    vals = ["1", "2", "x y", "{z}", ""]
+    pool = ["a", "A", "b", "B", "c", "title", "Title", "year", "ß", "ss", "SS", "ſ", "id", "Id", "entrytype", "EntryType", "iD"]
+    vals = ["1", "2", "x y", "{z}", "", "7#int", "2020#int", "2.5#float"]
     cases = []
     for cid in range(ncases):
         nf = rnd.randint(0, 5)
@@ -384,8 +409,9 @@ def run(chk: core.Check):
             verdicts = {"eq": b == o, "ne": b != o, "eq_rev": o == b}
             pairs.append({"id": pid, "what": how, "x": proj_obj(b, model), "y": proj_obj(o, model), **verdicts}); pid += 1
         for lab, o in perturbations(b, model, rnd):
-            pairs.append({"id": pid, "what": lab, "x": proj_obj(b, model), "y": proj_obj(o, model),
-                          "eq": b == o, "ne": b != o, "eq_rev": o == b}); pid += 1
+            x, y = o if isinstance(o, tuple) else (b, o)
+            pairs.append({"id": pid, "what": lab, "x": proj_obj(x, model), "y": proj_obj(y, model),
+                          "eq": x == y, "ne": x != y, "eq_rev": y == x}); pid += 1
     for a in objs:  # all cross pairs of distinct parsed objects
         for b in objs:
             pairs.append({"id": pid, "what": "cross", "x": proj_obj(a, model), "y": proj_obj(b, model),
